@@ -171,7 +171,12 @@ func Exact3(n *shape.Node) (func(V3) float64, bool) {
 			return nil, false
 		}
 		return func(p V3) float64 { return f(p) - P[0] }, true
-	case "revolve":
+	case "revolve", "revolvetheta":
+		// revolvetheta: only the full revolution (angle 0 or whole turns, which the constructor
+		// documents as normalised away) is in the exact grammar
+		if n.Op == "revolvetheta" && math.Mod(math.Abs(P[0]), 2*math.Pi) != 0 {
+			return nil, false
+		}
 		f, ok := Exact2(n.K[0])
 		if !ok {
 			return nil, false
